@@ -279,3 +279,53 @@ def chase_def(body, op, depth=6):
             continue
         return rv
     return None
+
+
+_BP_EMPTY = re.compile(r'Vec::<T>::(new|with_capacity)$|Vec::<T, A>::(new_in|with_capacity_in)$|String::new$')
+_BP_APPEND = re.compile(r'Vec::<T, A>::(extend_from_slice|append|push)$|Extend<.*>>::extend$|io::Write>::write_all$|std::io::Write::write_all$')
+_BP_CONCAT = re.compile(r'slice::<impl \[T\]>::concat$|Concat<.*>>::concat$')
+_BP_THROUGH = re.compile(r'::to_vec$|::to_owned$|::clone$|::as_slice$|::as_ref$|::deref$|::deref_mut$|::into_vec$|::as_mut_slice$|Cursor::<T>::(new|into_inner|get_ref)$|::borrow$|::into$|::from$|::as_bytes$')
+
+
+def byte_parts(e, depth=0):
+    """the ordered list of the pieces a byte buffer is concatenated from, whatever the concatenation idiom: `[a, b].concat()`,
+    `let mut v = Vec::new(); v.extend_from_slice(a); v.extend_from_slice(b)`, `a.to_vec()` / references / clones of those.
+    A piece that is itself such a buffer is flattened; anything else is a leaf (returned with wrappers removed)."""
+    if depth > 40 or not isinstance(e, tuple):
+        return [e]
+    while True:
+        if e[0] in ('ref', 'deref', 'refm'):
+            e = e[1]
+        elif e[0] == 'cast':
+            e = e[1]
+        elif e[0] == 'via':
+            e = e[2]
+        else:
+            p = peel_payload(e)
+            if p is e:
+                break
+            e = p
+    if e[0] == 'call':
+        if _BP_EMPTY.search(e[1]):
+            return []
+        if _BP_CONCAT.search(e[1]) and e[3]:
+            arr = e[3][0]
+            while arr[0] in ('ref', 'deref', 'refm', 'cast', 'via'):
+                arr = arr[1] if arr[0] != 'via' else arr[2]
+            if arr[0] == 'agg' and arr[1] == 'array':
+                out = []
+                for x in arr[3]:
+                    out.extend(byte_parts(x, depth + 1))
+                return out
+            return [e]
+        if _BP_THROUGH.search(e[1]) and len(e[3]) == 1:
+            return byte_parts(e[3][0], depth + 1)
+        return [e]
+    if e[0] == 'mutated' and _BP_APPEND.search(e[1]):
+        prev = byte_parts(e[3], depth + 1) if e[3] is not None else [('unknown', 'no previous value')]
+        added = []
+        for x in (e[4] if len(e) > 4 else ()):
+            if x != ('self',):
+                added.extend(byte_parts(x, depth + 1))
+        return prev + added
+    return [e]
